@@ -314,6 +314,12 @@ func (z *Zipper) compareOps(a, b ssa.Instruction) bool {
 			return iA.Call.Method.Name() == iB.Call.Method.Name()
 		}
 		return true
+	case *ssa.Go:
+		iB := b.(*ssa.Go)
+		return sameCallMode(&iA.Call, &iB.Call)
+	case *ssa.Defer:
+		iB := b.(*ssa.Defer)
+		return sameCallMode(&iA.Call, &iB.Call)
 	case *ssa.Field:
 		iB := b.(*ssa.Field)
 		return iA.Field == iB.Field
@@ -359,6 +365,17 @@ func (z *Zipper) compareOps(a, b ssa.Instruction) bool {
 	case *ssa.SliceToArrayPointer:
 		iB := b.(*ssa.SliceToArrayPointer)
 		return types.Identical(iA.Type(), iB.Type())
+	}
+	return true
+}
+
+// sameCallMode compares the parts of a call that are not operands: invoke mode and method name.
+func sameCallMode(a, b *ssa.CallCommon) bool {
+	if a.IsInvoke() != b.IsInvoke() {
+		return false
+	}
+	if a.IsInvoke() {
+		return a.Method.Name() == b.Method.Name()
 	}
 	return true
 }
